@@ -4,8 +4,18 @@
 package c16
 
 import (
+	"context"
+	"encoding/json"
+	"fmt"
 	"strings"
+	"sync"
 	"testing"
+	"time"
+
+	"github.com/failsafe-go/failsafe-go"
+	"github.com/failsafe-go/failsafe-go/bulkhead"
+	"github.com/failsafe-go/failsafe-go/ratelimiter"
+	"github.com/failsafe-go/failsafe-go/retrypolicy"
 
 	"pgregory.net/rapid"
 
@@ -64,4 +74,175 @@ func TestRegress(t *testing.T) {
 	st := harness.NewStats("TestRegress")
 	defer st.Flush()
 	cfg.Regress(t, st, "../../regress/c16")
+}
+
+// TestEventsConcurrent: several executions run at the same time through one shared executor whose listeners they share;
+// every execution's events (attributed through the context the listeners are handed) must be exactly those the sequential
+// model predicts for its own script, so the totals are the sums of the per-execution predictions.
+func TestEventsConcurrent(t *testing.T) {
+	const test = "TestEventsConcurrent"
+	st := harness.NewStats(test)
+	defer st.Flush()
+	rapid.Check(t, func(t *rapid.T) {
+		o := compose.DefaultOpts()
+		o.FireOneIn, o.Standalone, o.CancelOneIn = 0, false, 0
+		var sc compose.Scenario
+		// stacks of instances without cross-execution state
+		kinds := []string{"retry", "retry", "fallback", "timeout", "hedge"}
+		n := rapid.IntRange(1, 4).Draw(t, "stackN")
+		for i := 0; i < n; i++ {
+			in := compose.GenInst(t, o, rapid.SampledFrom(kinds).Draw(t, "kind"), false)
+			in.CancelInScheduled, in.FbCancel = false, false
+			if in.Kind == "retry" && in.MaxRetries == -1 {
+				in.MaxRetries = 3
+			}
+			sc.Pool = append(sc.Pool, in)
+			sc.Stack = append(sc.Stack, i)
+		}
+		g := rapid.IntRange(2, 12).Draw(t, "goroutines")
+		for i := 0; i < g; i++ {
+			s := compose.Step{Op: "exec", Entry: rapid.IntRange(0, 7).Draw(t, "entry")}
+			for k, m := 0, rapid.IntRange(0, 6).Draw(t, "scriptN"); k < m; k++ {
+				s.Script = append(s.Script, compose.Outcome{V: rapid.IntRange(0, 3).Draw(t, "v"), E: rapid.SampledFrom(compose.SimpleErrs).Draw(t, "e")})
+			}
+			sc.Steps = append(sc.Steps, s)
+		}
+		sr := compose.RunConcurrent(sc, false)
+		if m := sr.First(cfg.Want); m != nil {
+			harness.Violation(t, cfg.Prop, test, "concurrent-"+compose.SigOf(m.Cat), sc, "%s\n  stack %s", m, sc.StackString())
+		}
+		key := sc.KindString() + fmt.Sprint(sc.Steps)
+		nt := sr.MaxActions >= 1 && sr.Execs >= 2
+		st.Case(key, nt, fmt.Sprintf("goroutines>=6=%v", g >= 6))
+		st.Count("concurrent_executions_compared", sr.Execs)
+		if nt {
+			st.Sample(key, func() any { return sc.Sample() })
+		}
+	})
+}
+
+// TestEventsWhenWaitsAreCancelled: rejection listeners must fire for rejections only. An execution waits for a bulkhead
+// permit, a rate limiter permit or a retry delay (an hour each); its context is cancelled meanwhile. That is not a
+// rejection, not a started retry, and not exhaustion.
+func TestEventsWhenWaitsAreCancelled(t *testing.T) {
+	const test = "TestEventsWhenWaitsAreCancelled"
+	st := harness.NewStats(test)
+	defer st.Flush()
+	rapid.Check(t, func(t *rapid.T) {
+		type scen struct {
+			Wait     string `json:"wait"` // bulkhead | limiter | retry-delay
+			Async    bool   `json:"async"`
+			CancelUs int    `json:"cancel_us"` // 0: the context is already cancelled at submission
+			Then     bool   `json:"then_real_rejection"`
+		}
+		sc := scen{Wait: rapid.SampledFrom([]string{"bulkhead", "limiter", "retry-delay"}).Draw(t, "wait"), Async: rapid.Bool().Draw(t, "async"),
+			CancelUs: rapid.SampledFrom([]int{0, 50, 300, 1000}).Draw(t, "cancelUs"), Then: rapid.Bool().Draw(t, "then")}
+		var mu sync.Mutex
+		counts := map[string]int{}
+		hit := func(name string) {
+			mu.Lock()
+			counts[name]++
+			mu.Unlock()
+		}
+		var pol failsafe.Policy[int]
+		var bh bulkhead.Bulkhead[int]
+		var rl ratelimiter.RateLimiter[int]
+		switch sc.Wait {
+		case "bulkhead":
+			bh = bulkhead.Builder[int](1).WithMaxWaitTime(time.Hour).OnFull(func(failsafe.ExecutionEvent[int]) { hit("OnFull") }).Build()
+			bh.TryAcquirePermit()
+			pol = bh
+		case "limiter":
+			rl = ratelimiter.SmoothBuilderWithMaxRate[int](time.Hour).WithMaxWaitTime(2 * time.Hour).OnRateLimitExceeded(func(failsafe.ExecutionEvent[int]) { hit("OnRateLimitExceeded") }).Build()
+			rl.TryAcquirePermit()
+			pol = rl
+		default:
+			pol = retrypolicy.Builder[int]().WithDelay(time.Hour).WithMaxRetries(3).
+				OnRetryScheduled(func(failsafe.ExecutionScheduledEvent[int]) { hit("OnRetryScheduled") }).
+				OnRetry(func(failsafe.ExecutionEvent[int]) { hit("OnRetry") }).
+				OnRetriesExceeded(func(failsafe.ExecutionEvent[int]) { hit("OnRetriesExceeded") }).
+				OnAbort(func(failsafe.ExecutionEvent[int]) { hit("OnAbort") }).
+				OnFailure(func(failsafe.ExecutionEvent[int]) { hit("retry.OnFailure") }).Build()
+		}
+		ctx, cancel := context.WithCancel(context.Background())
+		defer cancel()
+		ex := failsafe.NewExecutor[int](pol).WithContext(ctx).
+			OnDone(func(failsafe.ExecutionDoneEvent[int]) { hit("OnDone") }).
+			OnSuccess(func(failsafe.ExecutionDoneEvent[int]) { hit("OnSuccess") }).
+			OnFailure(func(failsafe.ExecutionDoneEvent[int]) { hit("OnFailure") })
+		calls := 0
+		fn := func() (int, error) { calls++; return 0, compose.EA }
+		if sc.CancelUs == 0 {
+			cancel()
+		} else {
+			go func() { time.Sleep(time.Duration(sc.CancelUs) * time.Microsecond); cancel() }()
+		}
+		var err error
+		doneCh := make(chan struct{})
+		go func() {
+			defer close(doneCh)
+			if sc.Async {
+				_, err = ex.GetAsync(fn).Get()
+			} else {
+				_, err = ex.Get(fn)
+			}
+		}()
+		select {
+		case <-doneCh:
+		case <-time.After(30 * time.Second):
+			harness.Violation(t, cfg.Prop, test, "cancelled-wait-hangs", sc, "%+v: the call had not returned 30s after the context was cancelled", sc)
+		}
+		bad := func(f string, a ...any) {
+			harness.Violation(t, cfg.Prop, test, "events-on-cancelled-wait", sc, "%+v (result %v): %s; events %v", sc, err, fmt.Sprintf(f, a...), counts)
+		}
+		mu.Lock()
+		c := map[string]int{}
+		for k, v := range counts {
+			c[k] = v
+		}
+		mu.Unlock()
+		if c["OnDone"] != 1 || c["OnSuccess"]+c["OnFailure"] != 1 {
+			bad("completion events: OnDone %d, OnSuccess %d, OnFailure %d", c["OnDone"], c["OnSuccess"], c["OnFailure"])
+		}
+		switch sc.Wait {
+		case "bulkhead":
+			if c["OnFull"] != 0 {
+				bad("OnFull fired %d times although nothing was rejected with ErrFull", c["OnFull"])
+			}
+		case "limiter":
+			if c["OnRateLimitExceeded"] != 0 {
+				bad("OnRateLimitExceeded fired %d times although nothing was rejected", c["OnRateLimitExceeded"])
+			}
+		default:
+			// the first attempt failed; at most one retry was decided, none was started unless the delay ... which is an hour
+			if c["OnRetry"] != 0 || c["OnRetriesExceeded"] != 0 || c["OnAbort"] != 0 {
+				bad("OnRetry %d, OnRetriesExceeded %d, OnAbort %d after a cancellation during the first retry delay", c["OnRetry"], c["OnRetriesExceeded"], c["OnAbort"])
+			}
+			if c["OnRetryScheduled"] > 1 || c["retry.OnFailure"] > 1 || calls > 1 {
+				bad("OnRetryScheduled %d, policy OnFailure %d, invocations %d", c["OnRetryScheduled"], c["retry.OnFailure"], calls)
+			}
+		}
+		if sc.Then {
+			// a real rejection afterwards fires its listener exactly once
+			switch sc.Wait {
+			case "bulkhead":
+				b2 := bulkhead.Builder[int](1).OnFull(func(failsafe.ExecutionEvent[int]) { hit("OnFull2") }).Build()
+				b2.TryAcquirePermit()
+				failsafe.Get(fn, b2)
+				if counts["OnFull2"] != 1 {
+					bad("a real rejection fired OnFull %d times", counts["OnFull2"])
+				}
+			case "limiter":
+				r2 := ratelimiter.SmoothBuilderWithMaxRate[int](time.Hour).OnRateLimitExceeded(func(failsafe.ExecutionEvent[int]) { hit("OnRL2") }).Build()
+				r2.TryAcquirePermit()
+				failsafe.Get(fn, r2)
+				if counts["OnRL2"] != 1 {
+					bad("a real rejection fired OnRateLimitExceeded %d times", counts["OnRL2"])
+				}
+			}
+		}
+		b, _ := json.Marshal(sc)
+		st.Case(string(b), true, "wait="+sc.Wait)
+		st.Sample(string(b), func() any { return sc })
+	})
 }
